@@ -8,6 +8,10 @@ package server
 //  sync.(*Map).LoadOrStore / Delete, log/slog.*, fmt.Sprintf, errors.Is: trusted frames in
 //  verif_contracts_c03.go / _c04.go)
 
+// slog.AnyValue: used in specifications only, as an uninterpreted function of a value boxed into `any`
+// (see the note in server/internal/client/ollama/verif_contracts.go)
+//@ extern func log/slog.AnyValue
+//@   pure reads none
 //@ extern func ParseModelPath
 //@   modifies nothing
 //@ extern func GetManifest
@@ -56,6 +60,13 @@ package server
 //@   ghost-at call makeRequestWithRetry #1 : ghost_put := 1
 // "success" is reported only after the PUT was accepted
 //@   ensures result == nil ==> ghost_put == 1 && ghost_fail == 0
+// the config layer belongs to the blobs that must be accepted before the manifest: when the
+// manifest names one, it is appended to the list the loop walks (ghost_needcfg is recorded before
+// the first progress callback can touch the manifest); the list starts with the manifest's layers
+//@   ghost-at entry : ghost_needcfg := 0
+//@   ghost-at call append #1 : ghost_needcfg := ite(len(manifest.Config.Digest) > 0, 1, 0)
+//@   loop 1 invariant ghost_needcfg >= 0 && len(layers) >= ghost_nl + ghost_needcfg
+//@   assert-at call makeRequestWithRetry #1 : ghost_up >= ghost_nl + ghost_needcfg
 
 // ---- uploadBlob: nil means the registry already has the blob (HEAD answered < 400) or the
 // ---- shared blobUpload finished without error (Wait)
@@ -85,6 +96,13 @@ package server
 //@   assume-at call GetBlobsPath #1 : ErrInvalidDigestFormat != nil   -- package-level errors.New value, assigned once at package init
 //@   ensures result == nil ==> b.done || b.nextURL != nil
 //@   modifies b.Total, b.Parts, b.nextURL, b.done, requestURL.RawQuery, requestURL.Scheme, opts.Token
+// `done` without an upload is claimed only for the registry's "mounted" answer (201 Created) to the
+// POST that opened the session
+//@   assert-at store done #1 : stored ==> resp.StatusCode == 201
+//@   assert-at call makeRequestWithRetry #1 : arg1 == "POST" && arg2 == requestURL
+//@   ensures result == nil && b.done && !old(b.done) ==> ghost_mounted == 1
+//@   ghost-at entry : ghost_mounted := 0
+//@   ghost-at store done #1 : ghost_mounted := ite(resp.StatusCode == 201, 1, 0)
 // blobUpload.Wait: nil is returned only from the `b.done || b.err != nil` exit with b.err == nil,
 // i.e. when Run (or Prepare, for a mounted blob) set done without an error
 //@ extern func (*blobUpload).acquire
@@ -120,6 +138,14 @@ package server
 //@   ghost-at after call (*blobUpload).Wait #1 : ghost_waited := ite(result == nil, 1, 0)
 //@   assert-at call LoadOrStore #1 : ghost_head == 0
 //@   assert-at call (*blobUpload).Wait #1 : arg0 == upload
+// the presence test asks for THIS layer's digest (last path element of the HEAD URL); the shared
+// upload is looked up under this layer's digest, and an upload created here is one for this layer:
+// it is the object that is prepared, run and waited for
+//@   assert-at call JoinPath #1 : len(arg1) == 4 && arg1[2] == "blobs" && arg1[3] == layer.Digest
+//@   assert-at call makeRequestWithRetry #1 : arg2 == requestURL
+//@   assert-at call LoadOrStore #1 : slog.AnyValue(arg1) == slog.AnyValue(layer.Digest)
+//@   assert-at call (*blobUpload).Prepare #1 : arg0 == upload && upload.Digest == layer.Digest
+//@   assert-at call (*blobUpload).Wait #1 : !ok ==> upload.Digest == layer.Digest
 
 // ---- blobUpload.Run: b.done is set only on the path where g.Wait() returned nil (all parts
 // ---- uploaded) and after the commit PUT loop; b.err then is the error of the last commit attempt
@@ -152,6 +178,11 @@ package server
 // an accepted commit is the last one: the loop is never continued after success (at the head of
 // the commit loop no earlier attempt was accepted)
 //@   loop 3 invariant ghost_commit == 0 && ghost_waited == 1 && ghost_tries >= 0
+// the commit request names this blob's digest and goes to the URL that carries it
+//@   assert-at call (Values).Add #1 : arg1 == "digest" && arg2 == b.Digest
+//@   assert-at call makeRequestWithRetry #1 : arg2 == requestURL
+// the goroutine started in iteration i uploads part i
+//@   assert-at call errgroup.(*Group).Go #1 : part == &b.Parts[i]
 
 // ---- Run$1 (the goroutine that uploads one part): g.Wait() == nil (ghost_waited above) means
 // ---- every such goroutine returned nil; it returns nil only if the LAST uploadPart attempt for
@@ -164,3 +195,4 @@ package server
 //@   assume-at after call fmt.Errorf #1 : result != nil    -- library fact
 //@   ensures result == nil ==> ghost_part == 1
 //@   loop 1 invariant ghost_part == 0
+//@   assert-at call (*blobUpload).uploadPart #1 : arg0 == b && arg2 == "PATCH" && arg3 == requestURL && arg4 == part
